@@ -8,6 +8,7 @@ mod time_k;
 mod sm;
 mod version_k;
 mod uri_k;
+mod cup_k;
 
 fn dispatch(req: &Value) -> Value {
     let kernel = req["kernel"].as_str().unwrap_or("");
@@ -16,6 +17,7 @@ fn dispatch(req: &Value) -> Value {
         k if k.starts_with("sm.") => sm::run(k, req),
         k if k.starts_with("version.") => version_k::run(k, req),
         "nonce.display" => uri_k::nonce(req),
+        "cup.verify" => cup_k::run(req),
         k if k.starts_with("uri.") => uri_k::run(k, req),
         _ => json!({"error": format!("unknown kernel {}", kernel)}),
     });
